@@ -5,10 +5,11 @@
 (* (arguments that were not logged - which message, which batch, which     *)
 (* job, the order of commands inside a transaction - are inferred by TLC)  *)
 (* and the model's post-state must project to the logged observation       *)
-(* (execution state; per task: state, routed-to set, processed, error      *)
-(* handled; per action: state; number of in-flight messages, post-commit   *)
-(* operations and scheduler jobs).  A run that is not accepted is a        *)
-(* DIVERGENCE between specification and code (not a property verdict).     *)
+(* (execution state and backlog length; per task: state, routed-to set,    *)
+(* processed, error handled; per action: state; number of in-flight        *)
+(* messages, post-commit operations and scheduler jobs; the clock).        *)
+(* A run that is not accepted is a DIVERGENCE between specification and    *)
+(* code (not a property verdict).                                          *)
 (***************************************************************************)
 EXTENDS MistralEngine, Json, IOUtils
 
@@ -22,20 +23,21 @@ TInit == /\ tid \in 1..Len(TraceLog) /\ l = 0
          /\ D = TraceLog[tid].prog
          /\ wf = "none"
          /\ tk = [x \in Rng(TraceLog[tid].prog.order) |-> NoRow]
-         /\ ax = [x \in Rng(TraceLog[tid].prog.order) |-> "none"]
-         /\ msgs = {} /\ ptq = {} /\ jobs = {} /\ now = 0 /\ nid = 1
-         /\ starts = [x \in Rng(TraceLog[tid].prog.order) |-> 0] /\ rearmed = FALSE
+         /\ ax = [x \in Rng(TraceLog[tid].prog.order) |-> <<>>]
+         /\ msgs = {} /\ seen = {} /\ ptq = {} /\ jobs = {} /\ backlog = <<>> /\ now = 0
+         /\ hist = H0
          /\ ev = [a |-> "Init"]
 
+AllOpKinds == {"pause", "resume", "stop"}
 TkRec(o, x) == CHOOSE r \in Rng(o.tk) : r.name = x
 HasTk(o, x) == \E r \in Rng(o.tk) : r.name = x
-AxRec(o, x) == CHOOSE r \in Rng(o.ax) : r.task = "r/" \o x \o "#0"
-HasAx(o, x) == \E r \in Rng(o.ax) : r.task = "r/" \o x \o "#0"
+AxOf(o, x)  == {r \in Rng(o.ax) : r.task = "r/" \o x \o "#0"}
 SumOps(P) == LET RECURSIVE S(_)
                  S(Q) == IF Q = {} THEN 0 ELSE LET b == CHOOSE y \in Q : TRUE IN Len(b.ops) + S(Q \ {b})
              IN S(P)
 Matches(o) ==
   /\ (o.wf # <<>>) /\ wf' = o.wf[1].state
+  /\ Len(backlog') = o.wf[1].backlog
   /\ \A x \in Names :
         IF HasTk(o, x)
         THEN /\ tk'[x].state = TkRec(o, x).state
@@ -43,7 +45,10 @@ Matches(o) ==
              /\ tk'[x].processed = TkRec(o, x).processed
              /\ tk'[x].errHandled = TkRec(o, x).errHandled
         ELSE tk'[x].state = "none"
-  /\ \A x \in Names : IF HasAx(o, x) THEN ax'[x] = AxRec(o, x).state ELSE ax'[x] = "none"
+  /\ \A x \in Names :
+        /\ Len(ax'[x]) = Cardinality(AxOf(o, x))
+        /\ \A r \in AxOf(o, x) : \E k \in 1..Len(ax'[x]) :
+              r.sid = "r/" \o x \o "#0@0." \o ToString(k - 1) /\ ax'[x][k] = r.state
   /\ Cardinality(msgs') = o.pend.msgs
   /\ SumOps(ptq') = o.pend.ptq
   /\ Cardinality(jobs') = o.pend.jobsDue + o.pend.jobsLater + o.pend.running
@@ -53,14 +58,16 @@ Func(w) == IF w = "_refresh_task_state" THEN "refresh" ELSE IF w = "_check_and_f
 PtqOp(w) == IF w = "schedule_if_needed" THEN "sched_refresh" ELSE w
 Act(e) ==
   CASE e.kind = "op" /\ e.what = "start" -> StartWorkflow
+    [] e.kind = "op" /\ e.what = "pause" -> OpPause
+    [] e.kind = "op" /\ e.what = "resume" -> OpResume
+    [] e.kind = "op" /\ e.what = "stop" -> OpStop(e.arg)
     [] e.kind = "ptq" -> \E b \in ptq : Head(b.ops).op = PtqOp(e.what) /\ PtqStep(b)
-    [] e.kind = "msg" /\ e.what = "start_task" -> \E m \in msgs : DeliverStartTask(m)
-    [] e.kind = "msg" /\ e.what = "run_action" -> \E m \in msgs : DeliverRunAction(m)
-    [] e.kind = "msg" /\ e.what = "on_action_complete" -> \E m \in msgs : DeliverActionComplete(m)
+    [] e.kind = "msg" /\ ~e.dup -> \E m \in msgs : m.m = e.what /\ Deliver(m)
+    [] e.kind = "msg" /\ e.dup  -> \E c \in seen : c.m = e.what /\ Dup(c)
     [] e.kind = "job" /\ e.phase = "capture" -> \E j \in jobs : j.func = Func(e.what) /\ JobCapture(j)
     [] e.kind = "job" /\ e.phase = "invoke" -> \E j \in jobs : j.func = Func(e.what) /\ JobInvoke(j)
     [] e.kind = "job" /\ e.phase = "delete" -> \E j \in jobs : j.func = Func(e.what) /\ JobDelete(j)
-    [] e.kind = "tick" -> Tick
+    [] e.kind = "tick" -> TickTo(e.now)
     [] OTHER -> FALSE
 TNext == /\ l < Len(Steps) /\ l' = l + 1 /\ UNCHANGED tid
          /\ Act(Steps[l + 1].ev)
@@ -68,4 +75,8 @@ TNext == /\ l < Len(Steps) /\ l' = l + 1 /\ UNCHANGED tid
 TSpec == TInit /\ [][TNext]_tvars
 Report == /\ PrintT(<<"reached", tid, l>>)
           /\ (l = Len(Steps) => PrintT(<<"accepted", tid>>))
+\* debugging aid: print the model state at every reached position of one run
+DumpReport == /\ Report
+              /\ PrintT(<<"state", tid, l, [wf |-> wf, tk |-> tk, ax |-> ax, msgs |-> msgs, ptq |-> ptq, jobs |-> jobs,
+                                           backlog |-> backlog, seen |-> seen, now |-> now]>>)
 =============================================================================
